@@ -1,6 +1,6 @@
 #!/bin/bash
 # tools/runall.sh [quick|thorough] [seed]   run every registered check, summarise
-cd /verif
+cd "$(dirname "$0")/.."
 TIER=${1:-quick}; SEED=${2:-1}
 for id in $(python3 -c "import json; print(' '.join(c['property_id'] for c in json.load(open('MANIFEST.json'))['checks']))"); do
   t0=$(date +%s.%N)
